@@ -259,6 +259,12 @@ func (e *Environment) Predefined(name string) bool {
 }
 
 func (e *Environment) Get(name string) (Object, bool) {
+	if name == "info" || name == "self" {
+		// A parameter (of a function or of a macro) with that name is what the body means, not the built-in.
+		if obj, ok := e.store[name]; ok {
+			return obj, true
+		}
+	}
 	if name == "info" {
 		e.TriggerNoCache()
 		return e.Info(), true
